@@ -195,6 +195,24 @@ func c18Decorate(rng *rand.Rand, src string, keywordNames bool) string {
 	return out
 }
 
+// c18HostileStrings replaces the content of some string literals by text that a rewriting
+// tool must leave alone: raw tabs and runs of blanks, escapes (also an escaped backslash
+// right before the closing quote), sigils, comment openers, brackets, and words of the
+// expanded-syntax keyword table. Contents are given in source form (already escaped).
+var c18StringPool = []string{"a\tb", "\t", "  lead", "trail  ", "a  b   c", `C:\\`, `dir\\sub\\`, `x\\\"y`, `\\`, `q\"q`, "please return the form", "let use type route", "validate expects handle",
+	"# not a comment", "// neither", "/* nor this */", "@ $ % ~ > < : ? ! & *", "{", "}", "[(", ")]", "a: b, c", "=>", "|>", "\\x41", "\\u00e9", "it's", "tab\there", "end\\"}
+
+func c18HostileStrings(rng *rand.Rand, src string) string {
+	return c18DqRe.ReplaceAllStringFunc(src, func(m string) string {
+		if rng.Intn(3) != 0 {
+			return m
+		}
+		return "\"" + c18StringPool[rng.Intn(len(c18StringPool))] + "\""
+	})
+}
+
+var c18DqRe = regexp.MustCompile(`"[^"\\\n]*"`)
+
 func c18Examples() []string {
 	var out []string
 	for _, pat := range []string{"examples/*/*.glyph", "examples/*.glyph", "tests/fixtures/*.glyph", "tests/fixtures/*/*.glyph"} {
@@ -251,7 +269,7 @@ type c18Params struct {
 
 func c18Laws(w *mon.W, label string, idx int, src string) {
 	prof := ""
-	if label == "generated-core" {
+	if label == "generated-core" || label == "generated-strings" {
 		prof = "core-profile:"
 	}
 	var f1, f2, ex, co string
@@ -368,6 +386,16 @@ func c18Worker(in, out string) {
 			if i%3 == 0 {
 				src = c18Decorate(rng, src, false)
 			}
+		case "generated-strings":
+			f := gen.Features{Floats: true, Strings: true, Arrays: true, Objects: true, While: true, For: true, Switch: true, StatusReturn: true, BuiltinsCore: true, BuiltinsInterp: true,
+				LogicRhsMayFail: true, EqIntFloat: true, DivZero: true, IndexOOR: true, NestedReturn: true, DeclInBranch: true}
+			g := gen.New(rng, f)
+			prog := g.Program(2 + rng.Intn(7))
+			pat, _ := prog.RoutePath("/t")
+			src = c18HostileStrings(rng, prog.Source(pat))
+			if i%4 == 0 {
+				src = c18Decorate(rng, src, false)
+			}
 		case "bytes":
 			if rng.Intn(3) == 0 || len(corpus) == 0 {
 				b := make([]byte, rng.Intn(300))
@@ -406,6 +434,8 @@ func checkC18(tier string) {
 	r.RunBatch(mon.Batch{Worker: "c18", Tag: "generated", N: ng, Chunk: (ng + 15) / 16, Parallel: 16, Params: c18Params{Family: "generated"}, OnDeath: onDeath, Timeout: 40 * time.Minute})
 	nc := r.Pick(12000, 400000)
 	r.RunBatch(mon.Batch{Worker: "c18", Tag: "generated-core", N: nc, Chunk: (nc + 15) / 16, Parallel: 16, Params: c18Params{Family: "generated-core"}, OnDeath: onDeath, Timeout: 40 * time.Minute})
+	nsx := r.Pick(12000, 400000)
+	r.RunBatch(mon.Batch{Worker: "c18", Tag: "generated-strings", N: nsx, Chunk: (nsx + 15) / 16, Parallel: 16, Params: c18Params{Family: "generated-strings"}, OnDeath: onDeath, Timeout: 40 * time.Minute})
 	nb := r.Pick(20000, 800000)
 	r.RunBatch(mon.Batch{Worker: "c18", Tag: "bytes", N: nb, Chunk: (nb + 15) / 16, Parallel: 16, Params: c18Params{Family: "bytes"}, OnDeath: onDeath, Timeout: 40 * time.Minute})
 	if r.Counter("L3_checked") < 1000 {
